@@ -485,8 +485,8 @@ type vpC39Result struct {
 	viol      []string
 	env       string
 	started   int
-	tornDown  int  // children still running when the teardown began (as far as the harness can prove)
-	killProof int  // armed SIGTERM-ignoring children that had to be SIGKILLed
+	tornDown  int // children still running when the teardown began (as far as the harness can prove)
+	killProof int // armed SIGTERM-ignoring children that had to be SIGKILLed
 	elapsed   time.Duration
 }
 
@@ -529,13 +529,29 @@ func vpC39RunScenario(sc *vpC39Scenario, dir string) *vpC39Result {
 	drvDone := make(chan struct{})
 	go func() { defer close(drvDone); r.driver(done) }()
 
+	// watchdog: no master-side event (spawn attempt, hook call) and no return for grace+15s
 	watchdog := sc.Grace + 15*time.Second
 	returned := true
-	select {
-	case <-done:
-	case <-time.After(watchdog):
-		returned = false
+	tick := time.NewTicker(250 * time.Millisecond)
+watch:
+	for {
+		select {
+		case <-done:
+			break watch
+		case <-tick.C:
+			r.mu.Lock()
+			last := r.lastEvent
+			r.mu.Unlock()
+			if last.IsZero() {
+				last = t0
+			}
+			if time.Since(last) > watchdog {
+				returned = false
+				break watch
+			}
+		}
 	}
+	tick.Stop()
 	var stacks string
 	if returned {
 		buf := make([]byte, 1<<20)
@@ -593,7 +609,7 @@ func vpC39RunScenario(sc *vpC39Scenario, dir string) *vpC39Result {
 	defer r.mu.Unlock()
 	res.env = r.envFailure
 	if !returned {
-		r.violate("prefork did not return within %v (expected outcome %s)", watchdog, exp.outcome)
+		r.violate("prefork neither returned nor made a spawn attempt/hook call for %v (expected outcome %s)", watchdog, exp.outcome)
 		res.viol = r.viol
 		return res
 	}
@@ -634,6 +650,12 @@ func vpC39RunScenario(sc *vpC39Scenario, dir string) *vpC39Result {
 			res.tornDown++
 		}
 		if c.beh.needsKill() && c.armed && o.reaped {
+			if o.ws.Exited() {
+				// a signal sent by the master cannot make this child call exit(): the shell itself
+				// failed (e.g. fork failure under resource exhaustion) - environment, not prefork
+				res.env = fmt.Sprintf("SIGTERM-ignoring child #%d %s exited by itself with status %d", c.idx, c.beh, o.ws.ExitStatus())
+				continue
+			}
 			res.killProof++
 			if !(o.ws.Signaled() && o.ws.Signal() == syscall.SIGKILL) {
 				r.violate("child #%d %s ignores SIGTERM but its wait status is %v (exit %d, signal %v), want killed by SIGKILL", c.idx, c.beh, o.ws, o.ws.ExitStatus(), o.ws.Signal())
